@@ -146,7 +146,7 @@ structure InvR (s : St κ) : Prop where
   maps : MapsInv s.u
   live : ∀ t, s.u.live t = true ↔ Live s t
   fresh : ∀ t, (s.phase t = .none ∨ s.phase t = .created) → s.u.started t = false
-  ours : ∀ t, s.u.ours t = true → Live s t ∨ s.leaked t = true
+  ours : ∀ t, s.u.ours t = true → s.phase t = .created ∨ Live s t ∨ s.leaked t = true
   cb : ∀ t, s.cb t ≠ none → s.phase t = .created ∨ Live s t ∨ s.leaked t = true
   hctx : ∀ t, s.hctx t = true → Live s t ∨ s.leaked t = true
   entry : ∀ t, s.u.entry t = true → Live s t ∨ s.leaked t = true
@@ -168,7 +168,7 @@ theorem invR_congr (s s' : St κ) (h : InvR s) (eu : s'.u.owner = s.u.owner) (en
   refine ⟨mapsInv_congr s.u s'.u h1 eu en ee, ?_, ?_, ?_, ?_, ?_, ?_, ?_⟩
   · intro t; rw [el, hL]; exact h2 t
   · intro t; rw [ep, es]; exact h3 t
-  · intro t; rw [eo, hL, ek]; exact h4 t
+  · intro t; rw [eo, ep, hL, ek]; exact h4 t
   · intro t ht; rw [ep, hL, ek]; exact h5 t (ec t ht)
   · intro t; rw [eh, hL, ek]; exact h6 t
   · intro t; rw [ee, hL, ek]; exact h7 t
@@ -195,7 +195,7 @@ theorem invR_update (s s' : St κ) (t : Task) (h : InvR s) (hm : MapsInv s'.u)
       s'.u.entry x = s.u.entry x)
     (l1 : s'.u.live t = true ↔ Live s' t)
     (l2 : (s'.phase t = .none ∨ s'.phase t = .created) → s'.u.started t = false)
-    (l3 : s'.u.ours t = true → Live s' t ∨ s'.leaked t = true)
+    (l3 : s'.u.ours t = true → s'.phase t = .created ∨ Live s' t ∨ s'.leaked t = true)
     (l4 : s'.cb t ≠ none → s'.phase t = .created ∨ Live s' t ∨ s'.leaked t = true)
     (l5 : s'.hctx t = true → Live s' t ∨ s'.leaked t = true)
     (l6 : s'.u.entry t = true → Live s' t ∨ s'.leaked t = true)
@@ -218,8 +218,8 @@ theorem invR_update (s s' : St κ) (t : Task) (h : InvR s) (hm : MapsInv s'.u)
   · intro x
     by_cases hx : x = t
     · subst hx; exact l3
-    · obtain ⟨_, _, _, e4, _, _, _, _, e, _⟩ := fo x hx
-      rw [e, hL x hx, e4]; exact h4 x
+    · obtain ⟨e1, _, _, e4, _, _, _, _, e, _⟩ := fo x hx
+      rw [e, e1, hL x hx, e4]; exact h4 x
   · intro x
     by_cases hx : x = t
     · subst hx; exact l4
@@ -242,36 +242,57 @@ theorem invR_update (s s' : St κ) (t : Task) (h : InvR s) (hm : MapsInv s'.u)
     · obtain ⟨e1, _, _, e4, e5, _, _⟩ := fo x hx
       rw [e1, e4, e5]; exact h8 x
 
-theorem invR_create (s : St κ) (t : Task) (wc pre : Bool) (h : InvR s) : InvR (createStep s t wc pre) := by
+theorem createU_fields (cfg : Cfg) (u : C13.St κ) (t : Task) :
+    let u' := if cfg.oursAtCreate then { u with ours := upd u.ours t true } else u
+    u'.owner = u.owner ∧ u'.names = u.names ∧ u'.entry = u.entry ∧ u'.live = u.live ∧ u'.started = u.started ∧
+    (∀ x, x ≠ t → u'.ours x = u.ours x) := by
+  simp only []
+  split
+  · exact ⟨rfl, rfl, rfl, rfl, rfl, fun x hx => upd_other _ _ _ _ hx⟩
+  · exact ⟨rfl, rfl, rfl, rfl, rfl, fun _ _ => rfl⟩
+
+theorem invR_create (cfg : Cfg) (s : St κ) (t : Task) (wc pre : Bool) (h : InvR s) :
+    InvR (createStep cfg s t wc pre) := by
   unfold createStep
   split
   · exact h
   · rename_i hp
     have hp : s.phase t = .none := Classical.not_not.1 hp
     have hnl : ¬ Live s t := by unfold Live; rw [hp]; simp
+    obtain ⟨c1, c2, c3, c4, c5, c6⟩ := createU_fields cfg s.u t
     refine invR_update s _ t h ?_ ?_ ?_ ?_ ?_ ?_ ?_ ?_ ?_
-    · exact h.maps
+    · exact mapsInv_congr s.u _ h.maps c1 c2 c3
     · intro x hx
-      refine ⟨upd_other _ _ _ _ hx, ?_, rfl, rfl, rfl, rfl, rfl, rfl, rfl, rfl⟩
-      intro hc e; apply hc
-      show (if pre then ensureEntry s.cb t else s.cb) x = none
-      split
-      · rw [ensureEntry_other _ _ _ hx]; exact e
-      · exact e
+      refine ⟨upd_other _ _ _ _ hx, ?_, rfl, rfl, rfl, rfl, ?_, ?_, c6 x hx, ?_⟩
+      · intro hc e; apply hc
+        show (if pre then ensureEntry s.cb t else s.cb) x = none
+        split
+        · rw [ensureEntry_other _ _ _ hx]; exact e
+        · exact e
+      · show (if cfg.oursAtCreate then { s.u with ours := upd s.u.ours t true } else s.u).live x = s.u.live x
+        rw [c4]
+      · show (if cfg.oursAtCreate then { s.u with ours := upd s.u.ours t true } else s.u).started x = s.u.started x
+        rw [c5]
+      · show (if cfg.oursAtCreate then { s.u with ours := upd s.u.ours t true } else s.u).entry x = s.u.entry x
+        rw [c3]
     · constructor
-      · intro hl; exact absurd ((h.live t).1 hl) hnl
+      · intro hl
+        have hl : (if cfg.oursAtCreate then { s.u with ours := upd s.u.ours t true } else s.u).live t = true := hl
+        rw [c4] at hl
+        exact absurd ((h.live t).1 hl) hnl
       · intro hl; unfold Live at hl; simp at hl
-    · intro _; exact h.fresh t (Or.inl hp)
-    · intro ho
-      rcases h.ours t ho with a | a
-      · exact absurd a hnl
-      · exact Or.inr a
+    · intro _
+      show (if cfg.oursAtCreate then { s.u with ours := upd s.u.ours t true } else s.u).started t = false
+      rw [c5]; exact h.fresh t (Or.inl hp)
+    · intro _; exact Or.inl (by simp)
     · intro _; exact Or.inl (by simp)
     · intro hh
       rcases h.hctx t hh with a | a
       · exact absurd a hnl
       · exact Or.inr a
     · intro he
+      have he : (if cfg.oursAtCreate then { s.u with ours := upd s.u.ours t true } else s.u).entry t = true := he
+      rw [c3] at he
       rcases h.entry t he with a | a
       · exact absurd a hnl
       · exact Or.inr a
@@ -304,7 +325,7 @@ theorem invR_start (s : St κ) (t : Task) (h : InvR s) : InvR (startStep s t) :=
       · simp only [hsp]
     · exact ⟨fun _ => (by unfold Live; simp), fun _ => by simp only [hsp, upd_same]⟩
     · intro hh; simp at hh
-    · intro _; exact Or.inl (by unfold Live; simp)
+    · intro _; exact Or.inr (Or.inl (by unfold Live; simp))
     · intro _; exact Or.inr (Or.inl (by unfold Live; simp))
     · intro _; exact Or.inl (by unfold Live; simp)
     · intro _; exact Or.inl (by unfold Live; simp)
@@ -383,9 +404,12 @@ theorem invR_unique (s : St κ) (t : Task) (k : κ) (km : Bool) (h : InvR s) : I
       · exact Or.inl hl
   · exact h
 
-theorem invR_reap (s : St κ) (h : InvR s) : InvR { s with u := C13.reapStep s.u } := by
-  obtain ⟨e1, e2, e3, e4, e5, e6, _⟩ := C13.reap_fields s.u
-  exact invR_congr s _ h e1 e2 e3 e5 e6 e4 rfl (fun _ hx => hx) rfl rfl rfl rfl
+theorem invR_reap (cfg : Cfg) (s : St κ) (h : InvR s) : InvR (reapStep cfg s) := by
+  unfold reapStep
+  split
+  · exact h
+  · obtain ⟨e1, e2, e3, e4, e5, e6, _⟩ := C13.reapCfg_fields (!cfg.reaperDetached) s.u
+    exact invR_congr s _ h e1 e2 e3 e5 e6 e4 rfl (fun _ hx => hx) rfl rfl rfl rfl
 
 theorem invR_endBody (s : St κ) (t : Task) (oc : Outcome) (h : InvR s) : InvR (endBodyStep s t oc) := by
   unfold endBodyStep
@@ -400,7 +424,7 @@ theorem invR_endBody (s : St κ) (t : Task) (oc : Outcome) (h : InvR s) : InvR (
       exact ⟨upd_other _ _ _ _ hx, fun hc => hc, rfl, rfl, rfl, upd_other _ _ _ _ hx, rfl, rfl, rfl, rfl⟩
     · exact ⟨fun _ => (by unfold Live; simp), fun _ => (h.live t).2 hl⟩
     · intro hh; simp at hh
-    · intro _; exact Or.inl (by unfold Live; simp)
+    · intro _; exact Or.inr (Or.inl (by unfold Live; simp))
     · intro _; exact Or.inr (Or.inl (by unfold Live; simp))
     · intro _; exact Or.inl (by unfold Live; simp)
     · intro _; exact Or.inl (by unfold Live; simp)
@@ -417,7 +441,7 @@ theorem invR_abort (s : St κ) (t : Task) (r : Res) (h : InvR s) : InvR (abort s
     · intro hl; simp at hl
     · intro hl; unfold Live at hl; simp at hl
   · intro hh; simp at hh
-  · intro _; exact Or.inr (by simp)
+  · intro _; exact Or.inr (Or.inr (by simp))
   · intro _; exact Or.inr (Or.inr (by simp))
   · intro _; exact Or.inr (by simp)
   · intro _; exact Or.inr (by simp)
@@ -513,14 +537,14 @@ theorem invR_cleanup (cfg : Cfg) (s : St κ) (t : Task) (h : InvR s) : InvR (cle
 
 theorem invR_step (cfg : Cfg) (s : St κ) (op : Op κ) (h : InvR s) : InvR (step cfg s op) := by
   cases op with
-  | create t wc pre => exact invR_create s t wc pre h
+  | create t wc pre => exact invR_create cfg s t wc pre h
   | start t => exact invR_start s t h
   | storeCtx t => exact invR_storeCtx s t h
   | addCb a t c args => exact invR_addCb s a t c args h
   | removeCb a t c => exact invR_removeCb s a t c h
   | cancel a tg => exact invR_cancel s a tg h
   | unique t k km => exact invR_unique s t k km h
-  | reap => exact invR_reap s h
+  | reap => exact invR_reap cfg s h
   | endBody t oc => exact invR_endBody s t oc h
   | cbBegin t => exact invR_cbBegin cfg s t h
   | cbEnd t r => exact invR_cbEnd cfg s t r h
@@ -675,7 +699,7 @@ theorem ensureEntry_keys (cb : Task → Option (List (Cb × Args))) (t : Task) (
   | none => rw [hc] at e; simp only [upd_same] at e; cases e; simp
 
 theorem invC_create (cfg : Cfg) (s : St κ) (t : Task) (wc pre : Bool) (h : InvC cfg s) :
-    InvC cfg (createStep s t wc pre) := by
+    InvC cfg (createStep cfg s t wc pre) := by
   unfold createStep
   split
   · exact h
@@ -1020,7 +1044,10 @@ theorem invC_step (cfg : Cfg) (s : St κ) (op : Op κ) (h : InvC cfg s) : InvC c
     simp only [step, uniqueStep]; split
     · exact invC_u cfg s _ h
     · exact h
-  | reap => exact invC_u cfg s _ h
+  | reap =>
+    simp only [step, reapStep]; split
+    · exact h
+    · exact invC_u cfg s _ h
   | endBody t oc => exact invC_endBody cfg s t oc h
   | cbBegin t => exact invC_cbBegin cfg s t h
   | cbEnd t r => exact invC_cbEnd cfg s t r h
@@ -1222,7 +1249,10 @@ theorem invL_step (cfg : Cfg) (s : St κ) (op : Op κ) (hc : InvC cfg s) (h : In
     simp only [step, uniqueStep]; split
     · exact invL_congr cfg s _ h rfl rfl (fun _ e => e) rfl rfl rfl
     · exact h
-  | reap => exact invL_congr cfg s _ h rfl rfl (fun _ e => e) rfl rfl rfl
+  | reap =>
+    simp only [step, reapStep]; split
+    · exact h
+    · exact invL_congr cfg s _ h rfl rfl (fun _ e => e) rfl rfl rfl
   | endBody t oc =>
     simp only [step, endBodyStep]; split
     · exact h
